@@ -30,5 +30,5 @@ print(g.group(1) if g else '$prop')")
   git -C /repo worktree remove --force "$wt" >/dev/null 2>&1; rm -rf "$wt" "$wt.out"
 }
 export -f one
-printf '%s\n' "${ids[@]}" | xargs -P 4 -I{} bash -c "one {} $tier"
+printf '%s\n' "${ids[@]}" | xargs -P ${RESEED_P:-4} -I{} bash -c "one {} $tier"
 git -C /repo worktree prune
